@@ -316,7 +316,7 @@ package priority
 //@   [C02] forall k :: gOutNP[k] <= gInN[k]
 
 //@ pred DRAINED(dsc)
-//@   [C02 C07] forall k :: (dom(dsc.inputs, k) && dsc.inputs[k].Drained) ==> in(gClosedIn, k)
+//@   [C02 C06 C07] forall k :: (dom(dsc.inputs, k) && dsc.inputs[k].Drained) ==> in(gClosedIn, k)
 
 //@ func (*Discipline).send
 //@   requires [C02] gPendSet && gPendP == priority && item == gIn[priority][gInN[priority] - 1] && gOutNP[priority] < gInN[priority] && (gOutNP[priority] + 1 == gInN[priority])
@@ -349,12 +349,12 @@ package priority
 //@   requires [* C01] RINV(dsc)
 //@   requires [C02 C07 C15] !gDivErr
 //@   requires [C02 C07 C15] !gOutClosed
-//@   requires [C02 C07] DRAINED(dsc)
+//@   requires [C02 C06 C07] DRAINED(dsc)
 //@   modifies content(dsc.tactic), content(dsc.actual), content(dsc.inputs), gInfl, gInflP, gClock, gClosedIn, gIn, gInN, gOutNP, gPendSet, gPendP
 //@   ensures [*] WF(dsc)
 //@   ensures [* C01] RINV(dsc)
 //@   ensures [* C01] result == msum(dsc.actual) - old(msum(dsc.actual))
-//@   ensures [C02 C07] DRAINED(dsc)
+//@   ensures [C02 C06 C07] DRAINED(dsc)
 //@   loop 0
 //@     invariant [C05] forall k :: k != priority ==> dsc.tactic[k] == old(dsc.tactic[k])
 //@     invariant [C05] ROUND(dsc)
@@ -362,7 +362,7 @@ package priority
 //@     invariant [*] WF(dsc)
 //@     invariant [* C01] RINV(dsc)
 //@     invariant [* C01] processed == msum(dsc.actual) - old(msum(dsc.actual))
-//@     invariant [C02 C07] DRAINED(dsc)
+//@     invariant [C02 C06 C07] DRAINED(dsc)
 
 //@ func (*Discipline).iou
 //@   requires [C06 C07] interrupter-armed: !gIntStopped
@@ -377,12 +377,12 @@ package priority
 //@   requires [* C01] RINV(dsc)
 //@   requires [C02 C07 C15] !gDivErr
 //@   requires [C02 C07 C15] !gOutClosed
-//@   requires [C02 C07] DRAINED(dsc)
+//@   requires [C02 C06 C07] DRAINED(dsc)
 //@   modifies content(dsc.tactic), content(dsc.actual), content(dsc.inputs), gInfl, gInflP, gClock, gClosedIn, gIn, gInN, gOutNP, gPendSet, gPendP
 //@   ensures [*] WF(dsc)
 //@   ensures [* C01] RINV(dsc)
 //@   ensures [* C01] result == msum(dsc.actual) - old(msum(dsc.actual))
-//@   ensures [C02 C07] DRAINED(dsc)
+//@   ensures [C02 C06 C07] DRAINED(dsc)
 //@   loop 0
 //@     invariant [C05] forall k :: k != priority ==> dsc.tactic[k] == old(dsc.tactic[k])
 //@     invariant [C05] ROUND(dsc)
@@ -390,7 +390,7 @@ package priority
 //@     invariant [*] WF(dsc)
 //@     invariant [* C01] RINV(dsc)
 //@     invariant [* C01] processed == msum(dsc.actual) - old(msum(dsc.actual))
-//@     invariant [C02 C07] DRAINED(dsc)
+//@     invariant [C02 C06 C07] DRAINED(dsc)
 
 //@ func (*Discipline).prioritize
 //@   requires [C06 C07] interrupter-armed: !gIntStopped
@@ -402,19 +402,19 @@ package priority
 //@   requires [* C01] RINV(dsc)
 //@   requires [C02 C07 C15] !gDivErr
 //@   requires [C02 C07 C15] !gOutClosed
-//@   requires [C02 C07] DRAINED(dsc)
+//@   requires [C02 C06 C07] DRAINED(dsc)
 //@   modifies content(dsc.tactic), content(dsc.actual), content(dsc.inputs), gInfl, gInflP, gClock, gClosedIn, gIn, gInN, gOutNP, gPendSet, gPendP
 //@   ensures [*] WF(dsc)
 //@   ensures [* C01] RINV(dsc)
 //@   ensures [* C01] result == msum(dsc.actual) - old(msum(dsc.actual))
-//@   ensures [C02 C07] DRAINED(dsc)
+//@   ensures [C02 C06 C07] DRAINED(dsc)
 //@   loop 0
 //@     invariant [C05] ROUND(dsc) && (forall j :: 0 <= j && j < $i ==> dsc.tactic[dsc.priorities[j]] == 0)
 //@     invariant [C02] SEQ2(dsc)
 //@     invariant [*] WF(dsc)
 //@     invariant [* C01] RINV(dsc)
 //@     invariant [* C01] processed == msum(dsc.actual) - old(msum(dsc.actual))
-//@     invariant [C02 C07] DRAINED(dsc)
+//@     invariant [C02 C06 C07] DRAINED(dsc)
 
 //@ func (*Discipline).recalcTactic
 //@   requires [*] WF(dsc)
@@ -474,12 +474,12 @@ package priority
 //@   ensures [C05] SAT(dsc)
 //@   requires [C02 C07 C15] !gDivErr
 //@   requires [C02 C07 C15] !gOutClosed
-//@   requires [C02 C07] DRAINED(dsc)
+//@   requires [C02 C06 C07] DRAINED(dsc)
 //@   modifies content(dsc.tactic), content(dsc.actual), content(dsc.inputs), dsc.uncrowded, anyelems(dsc.uncrowded), dsc.useful, gDivErr, gInfl, gInflP, gClock, gClosedIn, gIn, gInN, gOutNP, gPendSet, gPendP
 //@   ensures [*] WF(dsc)
 //@   ensures [C02 C07 C15] gDivErr ==> result1 == ErrDividerBad
 //@   ensures [C02 C07 C15] result1 == nil ==> !gDivErr
-//@   ensures [C02 C07] DRAINED(dsc)
+//@   ensures [C02 C06 C07] DRAINED(dsc)
 //@   ensures [C02 C07 C15] result1 != nil ==> gDivErr
 
 //@ func (*Discipline).loop
@@ -491,7 +491,7 @@ package priority
 //@   requires [C05] SAT(dsc)
 //@   requires [C02 C07 C15] !gDivErr
 //@   requires [C02 C07 C15] !gOutClosed
-//@   requires [C02 C07] DRAINED(dsc)
+//@   requires [C02 C06 C07] DRAINED(dsc)
 //@   modifies content(dsc.tactic), content(dsc.actual), content(dsc.inputs), dsc.uncrowded, anyelems(dsc.uncrowded), dsc.useful, gDivErr, gInfl, gInflP, gClock, gClosedIn, gIn, gInN, gOutNP, gPendSet, gPendP
 //@   ensures [*] WF(dsc)
 //@   ensures [* C07 C15] gInfl == 0
@@ -504,7 +504,7 @@ package priority
 //@     invariant [C02] SEQ2(dsc)
 //@     invariant [*] WF(dsc)
 //@     invariant [C02 C07 C15] !gDivErr
-//@     invariant [C02 C07] DRAINED(dsc)
+//@     invariant [C02 C06 C07] DRAINED(dsc)
 
 //@ func (*Discipline).main
 //@   requires [C06 C07] interrupter-armed: !gIntStopped
@@ -516,7 +516,7 @@ package priority
 //@   requires [C05] SAT(dsc)
 //@   requires [C02 C07 C15] !gDivErr
 //@   requires [C02 C07 C15] !gOutClosed
-//@   requires [C02 C07] DRAINED(dsc)
+//@   requires [C02 C06 C07] DRAINED(dsc)
 //@   modifies content(dsc.tactic), content(dsc.actual), content(dsc.inputs), dsc.uncrowded, anyelems(dsc.uncrowded), dsc.useful, gDivErr, gInfl, gInflP, gClock, gClosedIn, gOutClosed, gIn, gInN, gOutNP, gPendSet, gPendP, gIntStopped
 
 //@ func Opts.isValid
